@@ -296,6 +296,10 @@ def check_case(case):
 
   # ---- read the operative config back and compare ----------------------------------------
   text = gin.operative_config_str()
+  with gin.config_scope('zs/zt'):
+    text_scoped = gin.operative_config_str()
+  require(text_scoped == text, 'operative-config-depends-on-active-scope',
+          lambda: f'--- top level:\n{text}\n--- inside config_scope(zs/zt):\n{text_scoped}')
   got_sections = set(re.findall(r'^# Parameters for (.*):$', text, flags=re.M))
   with warnings.catch_warnings():
     warnings.simplefilter('ignore')
